@@ -1006,6 +1006,7 @@ type c20Tree struct {
 
 var (
 	c20Scratch string
+	c20CLIAbs  string
 	c20Trees   []*c20Tree
 	c20Buf     []byte
 	c20Hook    struct {
@@ -1033,6 +1034,7 @@ func c20Setup() {
 	check(err)
 	c20Scratch, err = os.MkdirTemp(wd, "c20-scratch-")
 	check(err)
+	c20CLIAbs = filepath.Join(wd, c20CLIName)
 	f, err := c20Extract()
 	check(err)
 	marker := string(f.marker)
@@ -1049,7 +1051,7 @@ func c20Setup() {
 			"import \"lib/sub/deep/d.ecal\" as d\nimport \"lib/a.ecal\" as a\na.add(d.twice(%d), 0) / 2\n"},
 		// 2: empty file, binary file with every byte value, file names with spaces / dots / UTF-8
 		{map[string]string{"empty.txt": "", "data/all.bin": c20AllBytes(), "data/with space.txt": " \n\t", "data/.hidden": "h",
-			"data/ü/ö.txt": "äöü", "lib/a.ecal": lib},
+			"data/ü/ö.txt": "äöü", "lib/a.ecal": lib, ".git/config": "[core]\n", ".a/.b/c.txt": "hidden directories", "lib/.cache/x": "x"},
 			"import \"lib/a.ecal\" as a\na.add(%d, 0)\n"},
 		// 3: files that contain the marker, '#' runs and a zip signature themselves
 		{map[string]string{"m/marker.txt": "x" + marker + "y" + marker, "m/hash.txt": strings.Repeat("#", 5000),
@@ -1071,6 +1073,23 @@ func c20Setup() {
 		// 9: a dangling symbolic link, followed (in name order) by other entries — refuse
 		{map[string]string{"a.txt": "a", "z/last.txt": "z"}, "x := %d\nx\n"},
 	}
+	// 10: files around 2^16 and 2^20 bytes and one of 3 MB (compressible)
+	big := map[string]string{}
+	for _, sz := range []int{65535, 65536, 65537, 1<<20 - 1, 1 << 20, 1<<20 + 1, 3 << 20} {
+		b := make([]byte, sz)
+		c20Fill(b, 1, 0)
+		big[fmt.Sprintf("large/f%d.dat", sz)] = string(b)
+	}
+	specs = append(specs, struct {
+		files map[string]string
+		entry string
+	}{big, "x := %d\nx\n"})
+	// 11: the entry imports through spellings that work when the program is run from disk
+	specs = append(specs, struct {
+		files map[string]string
+		entry string
+	}{map[string]string{"lib/a.ecal": lib, "x/y.txt": "y"},
+		"import \"./lib/a.ecal\" as a\nimport \"lib//a.ecal\" as b\nimport \"x/../lib/a.ecal\" as c\na.add(b.add(%d, 0), c.add(0, 0))\n"})
 	links := map[int]map[string]string{8: {"alink": "real"}, 9: {"blink": "nowhere", "y/inner": "../missing"}}
 	for k, s := range specs {
 		t := &c20Tree{dir: filepath.Join(c20Scratch, fmt.Sprintf("tree%d", k)), files: s.files, entry: s.entry}
@@ -1159,16 +1178,34 @@ func c20BuildCLI(out string) error {
 
 // c20CLIPath returns the CLI executable built for this run (builds it for single-case runs).
 func c20CLIPath() (string, error) {
-	cli, err := filepath.Abs(c20CLIName)
-	if err != nil {
-		return "", err
-	}
+	cli := c20CLIAbs
 	if _, err := os.Stat(cli); err != nil {
 		if err := c20BuildCLI(cli); err != nil {
 			return "", err
 		}
 	}
 	return cli, nil
+}
+
+// c20MainWords returns the string literals of cli/ecal.go that look like a command line word.
+func c20MainWords() []string {
+	path := filepath.Join(repoDir(), "cli", "ecal.go")
+	fset := token.NewFileSet()
+	file, err := parser.ParseFile(fset, path, nil, 0)
+	if err != nil {
+		return nil
+	}
+	var ws []string
+	ast.Inspect(file, func(n ast.Node) bool {
+		if bl, ok := n.(*ast.BasicLit); ok && bl.Kind == token.STRING {
+			if v, err := strconv.Unquote(bl.Value); err == nil && len(v) > 0 && len(v) <= 20 && !strings.ContainsAny(v, " \t\n%/") {
+				ws = append(ws, v)
+			}
+		}
+		return true
+	})
+	sort.Strings(ws)
+	return ws
 }
 
 // c20RunProc: payload `proc <tree> <rc> <arg-hex,arg-hex…|->`. The real CLI binary is
@@ -1191,15 +1228,9 @@ func c20RunProc(fs []string) string {
 		}
 	}
 	tree := c20Trees[treeNo]
-	cli, err := filepath.Abs(c20CLIName)
+	cli, err := c20CLIPath()
 	if err != nil {
 		return "ERR " + oneLine(err.Error())
-	}
-	if _, err := os.Stat(cli); err != nil {
-		// single-case runs (replay): build it here
-		if err := c20BuildCLI(cli); err != nil {
-			return "ERR " + oneLine(err.Error())
-		}
 	}
 	bin, err := os.ReadFile(cli)
 	if err != nil {
@@ -1361,6 +1392,31 @@ func c20RunOut(fs []string) string {
 	if os.WriteFile(src, bin, 0644) != nil || os.WriteFile(entry, []byte(entryText), 0644) != nil {
 		return "ERR write"
 	}
+	if variant == "srcistarget" || variant == "srcistarget-link" {
+		// -source X -target X (also through a hard link): the tool must refuse, X stays what it was
+		tgt := src
+		if variant == "srcistarget-link" {
+			tgt = filepath.Join(c20Scratch, "out-link.bin")
+			os.Remove(tgt)
+			if err := os.Link(src, tgt); err != nil {
+				return "ERR link"
+			}
+			defer os.Remove(tgt)
+		}
+		p := tool.NewCLIPacker()
+		p.LogOut = io.Discard
+		p.Dir, p.SourceBinary, p.TargetBinary, p.EntryFile = &c20Trees[0].dir, &src, &tgt, entry
+		err := p.Pack()
+		after, _ := os.ReadFile(src)
+		intact := "source-intact"
+		if !bytes.Equal(after, bin) {
+			intact = fmt.Sprintf("source-destroyed:%d-bytes-left", len(after))
+		}
+		if err != nil {
+			return "out pack-refused " + intact
+		}
+		return "out packed " + intact
+	}
 	p := tool.NewCLIPacker()
 	p.LogOut = io.Discard
 	p.Dir, p.SourceBinary, p.TargetBinary, p.EntryFile = &c20Trees[0].dir, &src, &dst, entry
@@ -1370,6 +1426,24 @@ func c20RunOut(fs []string) string {
 	start := n + len(c20FactsCached().marker)
 	exe := dst
 	switch variant {
+	case "bothexist-text", "bothexist-packed":
+		// a sibling app.exe next to the started app (a release directory): app is what runs
+		sib := dst + ".exe"
+		defer os.Remove(sib)
+		if variant == "bothexist-text" {
+			if err := os.WriteFile(sib, []byte("MZ this is not the program\n"), 0755); err != nil {
+				return "ERR write"
+			}
+		} else {
+			other := filepath.Join(c20Scratch, "out-entry2.ecal")
+			os.WriteFile(other, []byte(fmt.Sprintf("x := %d\nx\n", rc+100)), 0644)
+			q := tool.NewCLIPacker()
+			q.LogOut = io.Discard
+			q.Dir, q.SourceBinary, q.TargetBinary, q.EntryFile = &c20Trees[0].dir, &src, &sib, other
+			if err := q.Pack(); err != nil {
+				return "ERR pack2 " + oneLine(err.Error())
+			}
+		}
 	case "exesuffix":
 		// the branch for Windows: the name the program was started with lacks the suffix of the file
 		os.Remove(dst + ".exe")
@@ -1402,7 +1476,11 @@ func c20RandomTree(r *Rand, dir string, maxFiles int) map[string]string {
 		depth := r.Intn(6)
 		var parts []string
 		for d := 0; d < depth; d++ {
-			parts = append(parts, "d"+names[r.Intn(len(names))])
+			if r.Intn(3) == 0 { // also directories called `.dot`, `-dash`, `with space`, …
+				parts = append(parts, names[r.Intn(len(names))])
+			} else {
+				parts = append(parts, "d"+names[r.Intn(len(names))])
+			}
 		}
 		parts = append(parts, fmt.Sprintf("f%d-%s", i, names[r.Intn(len(names))]))
 		name := strings.Join(parts, "/")
@@ -1481,13 +1559,31 @@ func c20RunRandomTree(fs []string) string {
 		dst = filepath.Join(dir, "out.bin")
 		tree.ignore["out.bin"] = true
 	}
+	// how the project directory (and the entry) is spelled on the command line: clean absolute path,
+	// or relative to the working directory in several unclean forms
+	spelling := r.Intn(7)
+	dirArg, entryArg := dir, entry
+	if spelling > 0 {
+		relDir := []string{"", "rt/project", "./rt/project", "rt/project/", "rt/../rt/project", "rt//project", "./rt/./project/."}[spelling]
+		dirArg = relDir
+		if r.Intn(2) == 0 {
+			entryArg = "rt/project/" + entryRel // the entry relative to the working directory as well
+		}
+	}
 	switch via {
 	case "args":
-		args := []string{src, "pack", "-dir", dir}
+		if spelling > 0 {
+			wd, err := os.Getwd()
+			if err != nil || os.Chdir(c20Scratch) != nil {
+				return "ERR chdir"
+			}
+			defer os.Chdir(wd)
+		}
+		args := []string{src, "pack", "-dir", dirArg}
 		if r.Intn(2) == 0 {
 			args = append(args, "-source", src) // otherwise the default: the running binary = osArgs[0]
 		}
-		args = append(args, "-target", dst, entry)
+		args = append(args, "-target", dst, entryArg)
 		flag.CommandLine = flag.NewFlagSet("harness", flag.ContinueOnError)
 		flag.CommandLine.SetOutput(io.Discard)
 		old := tool.VerifSetOsArgs(args)
@@ -1512,6 +1608,10 @@ func c20RunRandomTree(fs []string) string {
 		defer cancel()
 		cmd := exec.CommandContext(ctx, cli, "pack", "-target", dst, entryRel)
 		cmd.Dir = dir
+		if spelling > 0 { // -dir given in an unclean relative spelling, the working directory is elsewhere
+			cmd = exec.CommandContext(ctx, cli, "pack", "-dir", dirArg, "-target", dst, entryArg)
+			cmd.Dir = c20Scratch
+		}
 		cmd.Stdin = strings.NewReader("")
 		out, err := cmd.CombinedOutput()
 		if ctx.Err() != nil {
@@ -1571,6 +1671,9 @@ func c20Run(payload string) string {
 	zip4 := unhx(fs[8])
 	tree := c20Trees[treeNo]
 
+	if kind == 3 {
+		return c20RunSparse(n, tree, treeNo, rc, zip4)
+	}
 	if cap(c20Buf) < n {
 		c20Buf = make([]byte, n+4096)
 	}
@@ -1634,6 +1737,48 @@ func c20Run(payload string) string {
 	}
 
 	return c20ExecInProcess(exe, trueStart, tree, treeNo, entryText)
+}
+
+// c20RunSparse: a source binary of n zero bytes created as a sparse file (interpreters of 16 MB … 512 MB:
+// "of any size"); only the tail of the packed file is read back for the layout check.
+func c20RunSparse(n int, tree *c20Tree, treeNo, rc int, zip4 string) string {
+	src := filepath.Join(c20Scratch, "sparse-source.bin")
+	dst := filepath.Join(c20Scratch, "sparse-packed.bin")
+	entry := filepath.Join(c20Scratch, "entry.ecal")
+	defer os.Remove(src)
+	defer os.Remove(dst)
+	f, err := os.Create(src)
+	if err != nil {
+		return "ERR " + oneLine(err.Error())
+	}
+	err = f.Truncate(int64(n))
+	f.Close()
+	if err != nil {
+		return "ERR truncate " + oneLine(err.Error())
+	}
+	entryText := fmt.Sprintf(tree.entry, rc)
+	if err := os.WriteFile(entry, []byte(entryText), 0644); err != nil {
+		return "ERR write " + oneLine(err.Error())
+	}
+	p := tool.NewCLIPacker()
+	p.LogOut = io.Discard
+	p.Dir, p.SourceBinary, p.TargetBinary, p.EntryFile = &tree.dir, &src, &dst, entry
+	if err := p.Pack(); err != nil {
+		return "pack-refused"
+	}
+	mk := c20FactsCached().marker
+	d, err := os.Open(dst)
+	if err != nil {
+		return "ERR " + oneLine(err.Error())
+	}
+	tail := make([]byte, len(mk)+4)
+	_, err = d.ReadAt(tail, int64(n))
+	d.Close()
+	if err != nil || !bytes.HasPrefix(tail, mk) || !bytes.HasPrefix(tail[len(mk):], []byte(zip4)) {
+		return "LAYOUT marker-or-archive-not-after-source"
+	}
+	CountRun("sparse source binary")
+	return c20ExecInProcess(dst, int64(n+len(mk)), tree, treeNo, entryText)
 }
 
 // c20ExecInProcess points osArgs[0] at exe and calls the real RunPackedBinary.
@@ -1960,6 +2105,15 @@ func c20Gen(g *Gen) {
 			emit("corpus", true, n, kind, nil, "", 0, 3+kind)
 		}
 	}
+	// 1a. very large interpreters ("of any size"): sparse sources of zeros; the model's answer for these is
+	//     the theorem scan_finds_archive itself (zeros contain no byte of the marker)
+	sparse := []int{1 << 24, 1<<25 + 1, 1<<27 - 1}
+	if g.Thorough() {
+		sparse = append(sparse, 1<<28+3, 1<<29-1, 1<<26+f.bufSize-1)
+	}
+	for i, n := range sparse {
+		emit("sparse source binary", true, n, 3, nil, "", 0, 40+i)
+	}
 	// 1b. the real executable: the CLI of the tree under test, packed, started as a child
 	//     process with different command lines — the entry must run whatever the arguments are
 	argLists := [][]string{{}, {"hello"}, {"-x", "1"}, {"run"}, {"run", "job1"}, {"format"}, {"pack"}, {"console"}, {"debug"}}
@@ -1980,6 +2134,26 @@ func c20Gen(g *Gen) {
 			}
 			g.Count("real process")
 			g.Emit(fmt.Sprintf("proc %d %d %s abs", t, 20+ti*40+ai, as))
+		}
+	}
+	// … every word the CLI's main knows (string literals of cli/ecal.go) and the usual flags as first
+	// argument, alone and followed by a second argument: the packed program runs for EVERY command line
+	words := append(c20MainWords(), "-h", "-help", "--help", "-version", "--version", "-v", "--", "version", "help")
+	seenW := map[string]bool{}
+	wi := 0
+	for _, w := range words {
+		if seenW[w] {
+			continue
+		}
+		seenW[w] = true
+		for _, second := range []string{"", "x"} {
+			as := hx(w)
+			if second != "" {
+				as += "," + hx(second)
+			}
+			g.Count("real process, first argument from the CLI's own vocabulary")
+			g.Emit(fmt.Sprintf("proc 0 %d %s abs", 10+wi%230, as))
+			wi++
 		}
 	}
 	// … and the ways an executable gets started: found through $PATH (bare argv[0], the working
@@ -2030,7 +2204,8 @@ func c20Gen(g *Gen) {
 	g.Count("real interpreter binary: hypothesis check")
 	g.Emit("realbin")
 	// 1d. after the scan: zip error, parse error, runtime error, non-numeric / fractional / negative result
-	for vi, v := range []string{"ok", "badzip", "emptyzip", "parseerr", "rterr", "string", "float", "negative", "exesuffix"} {
+	for vi, v := range []string{"ok", "badzip", "emptyzip", "parseerr", "rterr", "string", "float", "negative", "exesuffix",
+		"bothexist-text", "bothexist-packed", "srcistarget", "srcistarget-link"} {
 		for _, n := range []int{0, f.bufSize - 1, 2*f.bufSize + 5} {
 			g.Count("after the scan: " + v)
 			g.Emit(fmt.Sprintf("out %s %d %d %d", v, n, vi%2, 5+vi))
